@@ -397,8 +397,11 @@ class Parser:
         """Check that the python version is high enough for a rule to apply."""
         if self.py_version >= min_version:
             return node
-        else:
-            raise SyntaxError(f"{error_msg} is only supported in Python {min_version} and above.")
+        message = f"{error_msg} is only supported in Python {min_version} and above."
+        target = node[0] if isinstance(node, list) and node else node
+        if isinstance(target, ast.AST) and hasattr(target, "lineno"):
+            self.raise_syntax_error_known_location(message, target)
+        self.raise_syntax_error(message)
 
     def raise_indentation_error(self, msg: str) -> None:
         """Raise an indentation error."""
